@@ -319,6 +319,8 @@ class DataArray:
     def __rmul__(s, o): return s._bin(o, lambda a, b: b * a)
     def __truediv__(s, o): return s._bin(o, lambda a, b: a / b)
     def __mod__(s, o): return s._bin(o, lambda a, b: a % b)
+    def __pow__(s, o): return s._bin(o, lambda a, b: a ** b)
+    def __abs__(s): return s._new(abs(s._v.data), s._v.dims, attrs={})
     def __neg__(s): return s._new(-s._v.data, s._v.dims, attrs={})
     def __eq__(s, o): return s._bin(o, lambda a, b: a == b)
     def __ne__(s, o): return s._bin(o, lambda a, b: a != b)
